@@ -209,6 +209,42 @@ def zero_hash_verification(chk):
     oblig.run_obligations(chk, obs)
 
 
+def decode_mod_covers_source(chk):
+    """br_iXX_decode_mod(x, src, len, m) decodes an unsigned big-endian integer *and* decides whether it is below m: r, s, coordinates
+    and RSA values "not below the modulus" are rejected through it.  The comparison must look at every source byte - a value that is
+    larger than m only in bytes beyond the modulus length must still be refused.  Decided by partial evaluation with m[0] and len
+    pinned: the byte loop runs max(len, modulus bytes) + 4 times (the loop exit compares with that constant)."""
+    from .. import fold
+    R = 'decode-mod-covers-source'
+    n = 0
+    for w, sh, wb in ((31, 5, 4), (15, 4, 2)):
+        src, fn = 'src/int/i%d_decmod.c' % w, 'br_i%d_decode_mod' % w
+        U = oblig.funit(src)
+        if fn not in U.funcs:
+            raise AnalysisBroken('%s vanished' % fn)
+        F = U.func(fn)
+        ps = F.f['params']
+        lds = [i for i in F.insts.values() if i['op'] == 'load' and F.addr_of(i['ops'][0]) == ({'k': 'a', 'v': 3}, 0)]
+        lds += [i for i in F.calls() if (i.get('callee') or '').startswith('pgm_read') and F.addr_of(i['ops'][0]) == ({'k': 'a', 'v': 3}, 0)]
+        if not lds:
+            raise AnalysisBroken('%s: the modulus header m[0] is not read' % fn)
+        for ln, m0 in ((100, 256), (10, 256), (33, 256), (66, 528), (67, 528), (200, 528)):
+            mlen = (m0 + w) >> sh
+            want = max(ln, mlen * wb) + 4
+            hy = [dict(kind='pin', n=ps[2]['n'], value=ln, param=True)] + [dict(kind='pin', n=l['n'], value=m0) for l in lds]
+            Fo = U.optimise(fn, hy, ())
+            cs = set(o['v'] for i in fold._reach_insts(Fo) if i['op'] == 'icmp' and i['pred'] in ('eq', 'ne', 'ult', 'ugt', 'uge', 'ule')
+                     for o in i['ops'] if o['k'] == 'c' and o['v'] is not None)
+            n += 1
+            inst = '%s: %d source bytes against a %d-word modulus => %d loop turns (all source bytes compared)' % (fn, ln, mlen, want)
+            if want in cs:
+                chk.ok(R, inst, src)
+            else:
+                chk.violation(R, inst, src, 'no loop bound %d remains (bounds present: %s): source bytes beyond the modulus length escape the range test'
+                              % (want, sorted(c for c in cs if c > 8)), key='%s %d %d %d' % (R, w, ln, m0))
+    chk.floor('decode_mod cases', n, 12)
+
+
 def rs_nonzero(chk):
     """FIPS 186-4 6.4.2 step 1: r and s must both lie in [1, n-1].  decode_mod enforces < n; each decoded value must
     additionally be zero-tested, and a positive test must force rejection."""
@@ -354,6 +390,7 @@ def run(tier):
     oblig.run_obligations(chk, asn1_sig_obligations())
     asn1_integer_sign(chk)
     zero_hash_verification(chk)
+    decode_mod_covers_source(chk)
     rs_nonzero(chk)
     muladd_zero_test(chk)
     rfc6979_inputs(chk)
